@@ -3,8 +3,10 @@ package c11
 import (
 	"bytes"
 	"encoding/hex"
+	"encoding/json"
 	"fmt"
 	"os"
+	osexec "os/exec"
 	"reflect"
 	"runtime/debug"
 	"runtime/metrics"
@@ -71,6 +73,7 @@ type Root struct {
 	Pream []string
 	Msg  bool // decoded through consensus.VerifDecodeMsg when wt=1
 	Big  bool // large closure: sampled less often
+	HasMap bool
 }
 
 type world struct {
@@ -167,6 +170,7 @@ func theWorld() *world {
 				return
 			}
 			r.Big = len(r.Pream) > 60
+			r.HasMap = hasKind(u, d, "M", map[int]bool{})
 			w.roots = append(w.roots, r)
 			w.byKey[r.Key] = r
 			w.byName[sanitize(r.Name)] = r
@@ -269,6 +273,11 @@ func (e *exec) Exec(op string) string {
 		bs, _ := hx.Arg(toks, "bytes")
 		in := hx.UnHex(bs)
 		wt, _ := hx.Arg(toks, "wt")
+		if r.HasMap && os.Getenv("C11_CHILD") == "" && bigCount(in) {
+			// the known finding map-count-drives-allocation can end the process (runtime: out of memory is not a panic):
+			// inputs that may carry a large map count are executed by the same code in a child process
+			return childDec(op)
+		}
 		ch := make(chan string, 1)
 		go func() {
 			defer func() {
@@ -329,6 +338,52 @@ func (e *exec) Exec(op string) string {
 		}
 	}
 	return "bad-op"
+}
+
+// bigCount: the input contains an RLP string of 6..16 characters that are all hex digits or signs (a candidate map count >= 2^20)
+func bigCount(in []byte) bool {
+	for i := 0; i < len(in); i++ {
+		if in[i] >= 0x86 && in[i] <= 0x91 {
+			n := int(in[i] - 0x80)
+			if i+n < len(in) {
+				ok := true
+				for _, c := range in[i+1 : i+1+n] {
+					if !(c >= '0' && c <= '9' || c >= 'a' && c <= 'f' || c >= 'A' && c <= 'F' || c == '+' || c == '-') {
+						ok = false
+						break
+					}
+				}
+				if ok {
+					return true
+				}
+			}
+		}
+	}
+	return false
+}
+
+func childDec(op string) string {
+	f, err := os.CreateTemp("", "c11-child-*.txt")
+	if err != nil {
+		return "harness-error"
+	}
+	defer os.Remove(f.Name())
+	f.WriteString("case\n" + op + "\n")
+	f.Close()
+	cmd := osexec.Command("sh", "-c", "ulimit -v 6000000; exec \"$0\" C11 replay \"$1\"", os.Args[0], f.Name())
+	cmd.Env = append(os.Environ(), "C11_CHILD=1")
+	out, err := cmd.Output()
+	if err != nil {
+		// the child died (fatal error: runtime: out of memory): the decode did not stay within bounds
+		return "err res=alloc"
+	}
+	var d struct {
+		Impl []string `json:"impl"`
+	}
+	if json.Unmarshal(out, &d) != nil || len(d.Impl) != 2 {
+		return "harness-error"
+	}
+	return d.Impl[1]
 }
 
 // ---- monitors --------------------------------------------------------------------------------
